@@ -189,9 +189,14 @@ impl InstructionGenerator {
         self.label("do", pos);
         self.generate_expression_instructions(condition);
         if kind == DoLoopConditionKind::Until {
-            self.push(Instruction::NotA, pos);
+            // the loop ends when the condition is true, i.e. anything other than zero
+            // (NOT would be the bitwise complement: NOT 5 is -6, which is true as well)
+            self.jump_if_false("until-continue", pos);
+            self.jump("loop", pos);
+            self.label("until-continue", pos);
+        } else {
+            self.jump_if_false("loop", pos);
         }
-        self.jump_if_false("loop", pos);
         self.visit(statements);
         self.mark_statement_address(); // to be able to resume on error
         self.jump("do", pos);
@@ -210,10 +215,12 @@ impl InstructionGenerator {
         self.mark_statement_address(); // to be able to resume on error
         self.generate_expression_instructions(condition);
         if kind == DoLoopConditionKind::Until {
-            self.push(Instruction::NotA, pos);
+            // go on while the condition is false (zero)
+            self.jump_if_false("do", pos);
+        } else {
+            self.jump_if_false("loop", pos);
+            self.jump("do", pos);
         }
-        self.jump_if_false("loop", pos);
-        self.jump("do", pos);
         self.label("loop", pos);
     }
 }
